@@ -30,7 +30,7 @@ def plan(tier, seed):
                 'floor': {'distinct_nontrivial': 1500, 'loads_overwrite': 4000, 'loads_combine': 4000, 'registers': 2000,
                           'variadic_registers': 500, 'failing_loads': 1000, 'probe_sets_compared': 30000,
                           'keys_with_two_sources': 3000, 'scripts_with_cut': 2000}}
-    return {'n': 80000 + exh_n(), 'deadline': 540, 'exh': exh_n(),
+    return {'n': 220000 + exh_n(), 'deadline': 540, 'exh': exh_n(),
             'floor': {'distinct_nontrivial': 20000, 'loads_overwrite': 60000, 'loads_combine': 60000, 'registers': 30000,
                       'failing_loads': 15000, 'probe_sets_compared': 500000, 'exhaustive_load_orders': exh_n()}}
 
